@@ -38,7 +38,9 @@ def raw_fields(node):
 
 def iter_values(val, path=()):
     """flatten containers: yields (path, leaf value)"""
-    if isinstance(val, Mapping):
+    if is_node(val):
+        yield path, val      # result containers are Mappings themselves: they are nodes, not containers
+    elif isinstance(val, Mapping):
         for k in val:  # insertion order
             yield from iter_values(val[k], (*path, ("key", k)))
     elif isinstance(val, (tuple, list)):
@@ -150,13 +152,53 @@ import re  # noqa: E402
 _ADDR = re.compile(r" object at 0x[0-9a-f]+")
 
 
+def scopes(roots):
+    """[(scope owner or None, [nodes])]: the top-level graph and every function body, each walked
+    without entering (other) function bodies -- a function body is a name space of its own"""
+    from pytato.function import FunctionDefinition
+    res = []
+    pending = [(None, roots if isinstance(roots, (list, tuple)) else [roots])]
+    seen_f = set()
+    while pending:
+        owner, rts = pending.pop()
+        seen = {}
+        order = []
+
+        def rec(n):
+            if id(n) in seen:
+                return
+            seen[id(n)] = n
+            if isinstance(n, FunctionDefinition):
+                if id(n) not in seen_f:
+                    seen_f.add(id(n))
+                    pending.append((n, list(n.returns.values())))
+                order.append(n)
+                return
+            for c in children(n):
+                rec(c)
+            order.append(n)
+        import sys
+        old = sys.getrecursionlimit()
+        sys.setrecursionlimit(max(old, 20000))
+        try:
+            for r in rts:
+                rec(r)
+        finally:
+            sys.setrecursionlimit(old)
+        res.append((owner, order))
+    return res
+
+
 def has_structural_duplicates(roots) -> bool:
-    """two distinct node objects that pytato itself considers equal"""
-    nodes = [n for n in walk(roots) if is_array(n)]
+    """two distinct array objects in one scope that pytato itself considers equal"""
     try:
-        return len(set(nodes)) < len({id(n) for n in nodes})
+        for _owner, nodes in scopes(roots):
+            arrs = [n for n in nodes if is_array(n)]
+            if len(set(arrs)) < len({id(n) for n in arrs}):
+                return True
     except Exception:  # noqa: BLE001
         return False
+    return False
 
 
 def canon(roots, *, tags=True, sharing=True, skip_fields=("non_equality_tags",), data_identity=True):
